@@ -224,7 +224,7 @@ bool provider(const std::string &prop, const std::string &tier, const std::strin
     auto H = [](int a) { return Op{'H', a}; }; auto E = [](int a) { return Op{'E', a}; }; auto D = [] { return Op{'D', 0}; };
     typedef std::vector<std::vector<Op>> T;
     if (prop == "C15") {
-        int b = thorough ? 2 : 1;
+        int b = thorough ? 3 : 2;
         { Spec s; s.check = false; s.initial = {0, 1}; s.threads = T{{S(0)}, {N(1)}, {U(0)}}; add(suite, s, b, flavour); }
         { Spec s; s.check = false; s.initial = {0}; s.threads = T{{N(2)}, {H(2)}, {E(1), D()}}; add(suite, s, b, flavour); }
         { Spec s; s.check = false; s.initial = {0, 1}; s.threads = T{{U(1), H(2)}, {N(1), D()}}; add(suite, s, b, flavour); }
